@@ -1,5 +1,5 @@
 (* C02 - coupled total derivatives are correct and identical in forward and reverse mode.  Property theorems only (statements printed by Coq from Real/AdjointProofs.v, BeamProofs.v, ComposeProofs.v, *Deriv.v) *)
-From Coq Require Import Reals ZArith Lra Lia Arith Bool List.
+From Coq Require Import Reals ZArith Lra Lia Arith Bool List String.
 From Coquelicot Require Import Coquelicot.
 From OAS Require Import Scalar Rops Sums Deriv Dual DualProofs Adjoint AdjointProofs Beam BeamTables BeamProofs BeamDeriv Aero AeroDeriv Mphys ComposeProofs Transfer TransferDeriv.
 Open Scope R_scope.
@@ -100,7 +100,7 @@ Print Assumptions C02_FEM_reverse_solve_would_be_wrong_without_symmetry.
 (* the matrix-free MPhys components: index maps are mutually inverse and adjoint *)
 Theorem C02_mux_then_demux :
   forall (sizes : list nat) (blocks : nat -> nat -> R) (s k : nat),
-  (s < length sizes)%nat -> (k < nth s sizes 0)%nat -> demux sizes (mux sizes blocks) s k = blocks s k.
+  (s < Datatypes.length sizes)%nat -> (k < nth s sizes 0)%nat -> demux sizes (mux sizes blocks) s k = blocks s k.
 Proof. exact demux_mux. Qed.
 Print Assumptions C02_mux_then_demux.
 
@@ -126,4 +126,25 @@ Theorem C02_chain_of_components_example :
   DR (fun t : R => def_mesh_group npx (W t) (M t) (Dp t) i j d) t0 (def_mesh_group npx w m dp i j d).
 Proof. exact def_mesh_group_DR. Qed.
 Print Assumptions C02_chain_of_components_example.
+
+(* the whole VLMStates wiring up to the linear system (deformed mesh, alpha, beta, v, circulations -> residual of the aerodynamic system) composed from the component theorems; any panel count *)
+Theorem C02_chain_VLMStates_to_linear_system :
+  forall (npx npy : nat) (sym left : bool) (Al Be V : R -> R) (M : R -> nat -> nat -> nat -> R)
+    (C : R -> nat -> R) (t0 : R) (al be v : dual R) (m : nat -> nat -> nat -> dual R) 
+    (c : nat -> dual R),
+  DR Al t0 al ->
+  DR Be t0 be ->
+  DR V t0 v ->
+  DR3 M t0 m ->
+  DR1 C t0 c ->
+  (0 < npy)%nat ->
+  (forall i j : nat, (i < npx)%nat -> (j < npy)%nat -> 0 < sq3 (g_ncross (M t0) i j)) ->
+  (forall b e i j : nat, ring_ok npx (fun t : R => chain_vectors npx npy sym left (M t)) t0 b e i j) ->
+  (forall b e j : nat, trail_ok npx Al (fun t : R => chain_vectors npx npy sym left (M t)) t0 b e j) ->
+  forall p : nat,
+  (p < npx * npy)%nat ->
+  DR (fun t : R => chain_residual npx npy sym left (Al t) (Be t) (V t) (M t) (C t) p) t0
+    (chain_residual npx npy sym left al be v m c p).
+Proof. exact chain_residual_DR. Qed.
+Print Assumptions C02_chain_VLMStates_to_linear_system.
 
